@@ -394,7 +394,9 @@ def nested_scenarios(ctx):
         for mode in 'bp':
             for ahead in (0, 1, 2):
                 case = {'nested': [where, mode, ahead]}
-                h = Harness('vconn')
+                if sum(ctx.viol_counts.values()) >= 3:
+                    return                  # enough evidence; a wait that never ends costs a harness time-out each
+                h = Harness('vconn', timeout=8.0)
                 try:
                     h.cmd('OPEN')
                     sig = lambda k: R.encode_message(R.signal(700 + k, '/x', 'x.y', 'Ahead', [R.U(k)]))
